@@ -1556,3 +1556,51 @@ func closureFn(v ssa.Value) *ssa.Function {
 	}
 	return nil
 }
+
+// factStrsDeepAll: factStrs plus, for every fact that is the result b of a same-package bool helper,
+// the facts common to all of the helper's paths that return b (helper evaluated through its boolean
+// summary: `if isBodiless(status, body) {...} else if ...` gives, on the else side, the negation of
+// every disjunct).
+func factStrsDeepAll(fn *ssa.Function, site ssa.Instruction) map[string]bool {
+	out := factStrsDeep(fn, site)
+	bs := &boolSummer{}
+	for _, fc := range factsAt(fn, site) {
+		call, ok := fc.cond.(*ssa.Call)
+		if !ok {
+			continue
+		}
+		h := helperBody(call)
+		if h == nil || h.Signature.Results().Len() != 1 || !isBoolType(h.Signature.Results().At(0).Type()) {
+			continue
+		}
+		paths, ok := bs.summarise(h, map[string]string{}, 1)
+		if !ok {
+			continue
+		}
+		var common map[string]bool
+		for _, p := range paths {
+			for _, rc := range bs.evalBoolOnPath(h, p, p.cond, map[string]string{}, 1) {
+				if rc.val != fc.truth {
+					continue
+				}
+				cur := map[string]bool{}
+				for a, v := range rc.cond {
+					cur[fmt.Sprintf("%s=%v", a, v)] = true
+				}
+				if common == nil {
+					common = cur
+				} else {
+					for k := range common {
+						if !cur[k] {
+							delete(common, k)
+						}
+					}
+				}
+			}
+		}
+		for k := range common {
+			out[k] = true
+		}
+	}
+	return out
+}
